@@ -89,6 +89,11 @@ def _work(units):
     acc = progcheck.Acc()
     hs = seam.HashSeam()
     for u in units:
+        if u[0] == "hashtwins":
+            for a, b in hash_twin_vectors():
+                for v in (a, b, a):
+                    check_vector(acc, v, 6, 32, hs)
+            continue
         v, coarse, nids = u[:3]
         check_vector(acc, v, coarse, nids, hs, labels=(u[3] if len(u) > 3 else None))
     return acc.out()
@@ -102,8 +107,27 @@ REPEATS = [(["1", "1", "2"], ["a", "b", "a"]), (["0", "1", "1"], ["a", "b", "a"]
            (["0.5", "0.5", "1"], ["", " ", ""]), (["1"] * 8, ["a", "b", "c", "a", "b", "c", "a", "b"])]
 
 
-def special_vectors():
+# near-equal weights (an "all equal -> unweighted" shortcut with a tolerance), at several magnitudes
+NEAR_EQUAL = [["0.000000001", "0.0000000010005"], ["0.0000000010005", "0.000000001"], ["1.0000000001", "1"], ["1", "1.0000000001", "1"], ["1000000", "1000000.0000001"],
+              ["0.1", "0.10000000000001"], ["3.4", "3.4000000001", "3.4"], ["0.000000001", "0.000000001", "0.0000000010000001"]]
+
+
+def hash_twin_vectors():
+    """pairs of weight vectors whose tuples have the SAME Python hash although the weights differ:
+    hash(1 + 2^-k) == hash(1 + 2^(61-k)) for floats / ints (modulus 2^61 - 1).  Evaluated one after the other."""
     out = []
+    for k in (32, 35, 41, 45):
+        f = repr(1 + 2.0**-k)
+        i = str(1 + 2 ** (61 - k))
+        assert hash(float(f)) == hash(int(i)) and float(f) != int(i)
+        out.append(([f, "1"], [i, "1"]))
+        out.append(([i, "1", "2"], [f, "1", "2"]))
+    out.append((["0.5", "1"], ["1152921504606846976", "1"]))  # hash(0.5) == hash(2**60)
+    return out
+
+
+def special_vectors():
+    out = [list(v) for v in NEAR_EQUAL]
     for s in SPECIAL:
         for w in ew.W + SPECIAL:
             if s != w:
@@ -154,6 +178,7 @@ def run(res, tier):
     units = [(v, b["coarse"] if len(v) <= 3 else 8, b["ids"] if len(v) <= 3 else 256) for v in vs]
     units += [(v, 8, 64) for v in special_vectors()]
     units += [(v, 10, 256, labels) for v, labels in REPEATS]
+    units.append(("hashtwins",))
     for w in pmap(_work, permuted(units, "c03"), chunk=8):
         res.merge_worker(w)
     witness_check(res)
